@@ -5,6 +5,7 @@ package serf
 
 import (
 	"bufio"
+	"errors"
 	"fmt"
 	"io"
 	"log"
@@ -288,7 +289,7 @@ func (s *Snapshotter) stream() {
 				s.aliveNodes = make(map[string]string)
 			}
 			s.tryAppend("leave\n")
-			if err := s.buffered.Flush(); err != nil {
+			if err := s.flush(); err != nil {
 				s.logger.Printf("[ERR] serf: failed to flush leave to snapshot: %v", err)
 			}
 			if err := s.fh.Sync(); err != nil {
@@ -321,7 +322,7 @@ func (s *Snapshotter) stream() {
 				}
 			}
 
-			if err := s.buffered.Flush(); err != nil {
+			if err := s.flush(); err != nil {
 				s.logger.Printf("[ERR] serf: failed to flush snapshot: %v", err)
 			}
 			if err := s.fh.Sync(); err != nil {
@@ -404,9 +405,27 @@ func (s *Snapshotter) tryAppend(l string) {
 	}
 }
 
+// errSnapshotNotOpen is returned while the snapshot file handles are missing
+// because a compaction failed after it had closed them.
+var errSnapshotNotOpen = errors.New("snapshot file is not open")
+
+// flush writes buffered lines to the snapshot file, if it is open
+func (s *Snapshotter) flush() error {
+	if s.buffered == nil {
+		return errSnapshotNotOpen
+	}
+	return s.buffered.Flush()
+}
+
 // appendLine is used to append a line to the existing log
 func (s *Snapshotter) appendLine(l string) error {
 	defer metrics.MeasureSinceWithLabels([]string{"serf", "snapshot", "appendLine"}, time.Now(), s.metricLabels)
+
+	// A failed compaction may have left us without file handles, the
+	// caller recovers by compacting again.
+	if s.buffered == nil {
+		return errSnapshotNotOpen
+	}
 
 	n, err := s.buffered.WriteString(l)
 	if err != nil {
@@ -515,16 +534,21 @@ func (s *Snapshotter) compact() error {
 	// handles.
 
 	// Flush the existing snapshot, ignoring errors since we will
-	// delete it momentarily.
-	_ = s.buffered.Flush()
-	s.buffered = nil
+	// delete it momentarily. The handles are already gone if an earlier
+	// compaction failed during the swap below.
+	if s.buffered != nil {
+		_ = s.buffered.Flush()
+		s.buffered = nil
+	}
 
 	// Close the file handle to the old snapshot
-	s.fh.Close()
-	s.fh = nil
+	if s.fh != nil {
+		s.fh.Close()
+		s.fh = nil
+	}
 
-	// Delete the old file
-	if err := os.Remove(s.path); err != nil {
+	// Delete the old file, an earlier failed swap may have removed it already
+	if err := os.Remove(s.path); err != nil && !os.IsNotExist(err) {
 		return fmt.Errorf("failed to remove old snapshot: %v", err)
 	}
 
